@@ -2301,18 +2301,20 @@ class AddPrefix(Elemwise):
     _parameters = ["frame", "prefix"]
     operation = M.add_prefix
 
-    def _convert_columns(self, columns):
-        len_prefix = len(self.prefix)
-        return [col[len_prefix:] for col in columns]
+    def _new_label(self, col):
+        # same formatting as pandas, input labels need not be strings
+        return f"{self.prefix}{col}"
 
     def _simplify_up(self, parent, dependents):
         if isinstance(parent, Projection):
             columns = determine_column_projection(self, parent, dependents)
-            columns = self._convert_columns(_convert_to_list(columns))
-            if set(columns) == set(self.frame.columns):
+            columns = _convert_to_list(columns)
+            columns = [
+                col for col in self.frame.columns if self._new_label(col) in columns
+            ]
+            if columns == self.frame.columns:
                 return
 
-            columns = [col for col in self.frame.columns if col in columns]
             return type(parent)(
                 type(self)(self.frame[columns], self.operands[1]),
                 parent.operand("columns"),
@@ -2323,9 +2325,8 @@ class AddSuffix(AddPrefix):
     _parameters = ["frame", "suffix"]
     operation = M.add_suffix
 
-    def _convert_columns(self, columns):
-        len_suffix = len(self.suffix)
-        return [col[:-len_suffix] for col in columns]
+    def _new_label(self, col):
+        return f"{col}{self.suffix}"
 
 
 class AssignIndex(Elemwise):
